@@ -32,9 +32,9 @@ type cmpEnv struct {
 	keys    []rel // relation of i.Sort[x] vs j.Sort[x]
 	hit     rel   // relation of i.HitNumber vs j.HitNumber
 	ints    map[types.Object]int
-	alias   map[types.Object]ast.Expr // iVal := i.Sort[x]
-	flagArr map[types.Object]string   // parameter object -> "scoring"/"desc"
-	rangeOf types.Object              // the `so` receiver being ranged
+	alias   map[types.Object]ast.Expr     // iVal := i.Sort[x]
+	flagArr map[types.Object]string       // parameter object -> "scoring"/"desc"
+	rangeOf types.Object                  // the `so` receiver being ranged
 	funcs   map[*types.Func]*ast.FuncDecl // same-package functions, for helper calls
 	depth   int
 	roots   map[types.Object]types.Object // helper parameter -> the comparator's own match parameter it was given
